@@ -193,7 +193,7 @@ Proof.
   - exact Q.
   - destruct (is_idle c s); [|exact Q]. destruct (id_lookup (s_ids s) i) as [ser|]; [|exact Q].
     destruct (getjob (s_jobs s) ser) as [j|]; [|exact Q].
-    destruct (j_done j && negb (done_pending ser (s_hub s))); [destruct (j_drop j && id_is (s_ids s) (j_id j) ser)|]; exact Q.
+    destruct (j_done j); [destruct (j_drop j && id_is (s_ids s) (j_id j) ser)|]; exact Q.
   - exact Q.
   - destruct (id_lookup (s_ids s) i); exact Q.
   - exact Q.
